@@ -85,6 +85,10 @@ class NumStr(SpecialStr):
             return self.length(ctx)
         if name == 'is_empty':
             return z3.BoolVal(False)
+        if name == 'chars':
+            from .models_std import ClassChars
+            neg = bool(ctx.decide(self.bv < 0)) if self.signed else False
+            return ClassChars(list(self.pre) + (['-'] if neg else []) + [None] + list(self.suf))
         if name == 'to_lower':
             return self._with(self.pre.lower(), self.suf.lower())
         if name == 'to_upper':
@@ -252,6 +256,12 @@ def render_value(ctx, v, kind='display', ty=''):
         return v
     if isinstance(v, EnumV) and v.ty == 'Cow':
         return render_value(ctx, list(v.p.values())[0][0], kind, ty)
+    if is_bv(v) and kind in ('hex', 'HEX', 'bin', 'oct'):
+        # radix directives print the two's-complement bit pattern of the value
+        c = conc(v)
+        if c is None:
+            return OpaqueStr('%s(%s)' % (kind, v))
+        return Str(format(c & ((1 << v.size()) - 1), {'hex': 'x', 'HEX': 'X', 'bin': 'b', 'oct': 'o'}[kind]))
     if is_bv(v):
         t = ty.strip().lstrip('&').strip()
         c = conc(v)
@@ -451,11 +461,11 @@ class OpaqueStr(SpecialStr):
         return 'OpaqueStr(%s)' % self.what[:60]
 
 
-@model(r'^core::fmt::rt::Argument::new_display$|^core::fmt::rt::Argument::new_debug$|^core::fmt::rt::Argument::new_lower_hex$')
+@model(r'^core::fmt::rt::Argument::new_(display|debug|lower_hex|upper_hex|binary|octal)$')
 def m_arg_new(ctx, args, callee):
     m = re.search(r'new_\w+::<(.*)>$', callee.strip(), re.S)
     ty = m.group(1) if m else ''
-    kind = 'display' if 'new_display' in callee else ('debug' if 'new_debug' in callee else 'hex')
+    kind = {'new_display': 'display', 'new_debug': 'debug', 'new_lower_hex': 'hex', 'new_upper_hex': 'HEX', 'new_binary': 'bin', 'new_octal': 'oct'}[re.search(r'new_[a-z_]+', callee).group(0)]
     return FmtArg(kind, args[0], ty)
 
 
